@@ -208,7 +208,18 @@ func (s *Solver) Check(pc []*Term, extra *Term, want []*Term) (string, map[*Term
 	return s.check1(pc, extra, want)
 }
 
-func (s *Solver) check1(pc []*Term, extra *Term, want []*Term) (string, map[*Term]uint64) {
+func (s *Solver) check1(pc []*Term, extra *Term, wantAll []*Term) (string, map[*Term]uint64) {
+	var want []*Term
+	seenW := map[*Term]bool{}
+	for _, w := range wantAll {
+		if !w.IsConst() && !seenW[w] {
+			seenW[w] = true
+			want = append(want, w)
+		}
+	}
+	if len(wantAll) > 0 && len(want) == 0 {
+		want = []*Term{tTrue}[:0]
+	}
 	// query cache: identical (pc, extra) pairs recur on every re-execution of a prefix
 	var kb strings.Builder
 	for _, c := range pc {
@@ -224,7 +235,7 @@ func (s *Solver) check1(pc []*Term, extra *Term, want []*Term) (string, map[*Ter
 		s.cache = map[string]*cacheEnt{}
 	}
 	if ent, ok := s.cache[key]; ok {
-		if ent.res != rSat || len(want) == 0 {
+		if ent.res != rSat || len(wantAll) == 0 {
 			s.nCacheHits++
 			return ent.res, ent.model
 		}
@@ -277,7 +288,7 @@ func (s *Solver) check1(pc []*Term, extra *Term, want []*Term) (string, map[*Ter
 		}
 	}
 	var model map[*Term]uint64
-	if res == rSat && len(want) > 0 {
+	if res == rSat && len(wantAll) > 0 {
 		model = map[*Term]uint64{}
 		for i := 0; i < len(want); i += 64 {
 			j := i + 64
